@@ -25,6 +25,10 @@ impl TraceRoot for Vm {
     for stub in &self.native_fun_stubs {
       stub.trace();
     }
+
+    for cache in &self.inline_cache {
+      cache.trace();
+    }
   }
 
   fn trace_debug(&self, log: &mut dyn Write) {
@@ -38,6 +42,10 @@ impl TraceRoot for Vm {
 
     for stub in &self.native_fun_stubs {
       stub.trace_debug(log);
+    }
+
+    for cache in &self.inline_cache {
+      cache.trace_debug(log);
     }
   }
 
